@@ -436,10 +436,22 @@ func (s *Stage) partReceived(part sts.Binned) bool {
 // -> sts.ConfirmWaiting: MD5 validation was successful but waiting on predecessor
 // -> sts.ConfirmNone: No knowledge of file
 func (s *Stage) GetFileStatus(relPath string, sent time.Time) int {
+	return s.GetVersionStatus(relPath, "", sent)
+}
+
+// GetVersionStatus is GetFileStatus for the version of the file that has the
+// given hash (any version if empty).  Names are used again for new content:
+// what is known about another version of the name - delivered and logged
+// earlier, say - tells nothing about the version the sender is asking about.
+func (s *Stage) GetVersionStatus(relPath, hash string, sent time.Time) int {
 	s.logDebug("Stage polled:", sent, relPath)
 	s.buildCache(sent)
 	path := filepath.Join(s.rootDir, relPath)
-	state := s.getFileState(path)
+	state, known := s.getFileVersion(path)
+	if hash != "" && known != "" && known != hash {
+		s.logDebug("Stage:", relPath, "(another version)")
+		return sts.ConfirmNone
+	}
 	switch state {
 	case stateReceived:
 		s.logDebug("Stage:", relPath, "(received)")
@@ -1224,6 +1236,15 @@ func (s *Stage) getFileState(path string) int {
 		return f.state
 	}
 	return stateUnknown
+}
+
+func (s *Stage) getFileVersion(path string) (state int, hash string) {
+	s.cacheLock.RLock()
+	defer s.cacheLock.RUnlock()
+	if f, ok := s.cache[path]; ok {
+		return f.state, f.hash
+	}
+	return stateUnknown, ""
 }
 
 func (s *Stage) getFileHash(path string) string {
